@@ -120,7 +120,7 @@ func vh_symPriorDestGid(dest string, src []*vh_srcEnt, rewrite bool, gid uint32)
 			np = 3
 		}
 		if v.Param("META", 0) != 0 && p != "d" && os.FileMode(st.Mode)&os.ModeType == 0 && !isHardlink {
-			np = 6
+			np = 7
 		}
 		dirChown := -1
 		if v.Param("META", 0) != 0 && os.FileMode(st.Mode).IsDir() {
@@ -174,6 +174,11 @@ func vh_symPriorDestGid(dest string, src []*vh_srcEnt, rewrite bool, gid uint32)
 			// a pure metadata edit: same bytes, size and mtime, other owner
 			state[p] = "other-meta"
 			m.MkFile(full, e.data, vh_goModeToUnixPerm(st.Mode), st.Uid+1, st.Gid, st.ModTime)
+		case 6:
+			// a touch below the microsecond: same bytes, size, mode and owner, mtime one nanosecond later
+			state[p] = "other-mtime"
+			v.Cover("other-mtime")
+			m.MkFile(full, e.data, vh_goModeToUnixPerm(st.Mode), st.Uid, st.Gid, st.ModTime+1)
 		}
 	}
 	if v.Param("SHAPE", 2) == 0 {
